@@ -587,6 +587,27 @@ def b_accessor(ctx):
             if not np.allclose(pr.iloc[i][['min_principal', 'med_principal', 'max_principal']].to_numpy(dtype=float), w, rtol=1e-9, atol=1e-7):
                 ctx.fail('C17:accessor-row', f'principals: row {i} {pr.iloc[i].tolist()} != {w.tolist()} (columns listed as {list(df.columns)})', {'row': row.tolist(), 'columns': list(df.columns)})
                 break
+    # an accessor object that is kept while the frame behind it is changed in place (scaled, one component overwritten): every method answers for the tensors the
+    # frame holds NOW, like the plain functions (added after seed C17-i memoised the eigenvalues on the accessor object)
+    data = rng.normal(size=(4, 6)) * 100
+    dfk = pd.DataFrame(data, columns=['S11', 'S22', 'S33', 'S12', 'S13', 'S23'], index=pd.Index([7, 3, 9, 1], name='node_id'))
+    eq = dfk.equistress
+    names = ('mises', 'tresca', 'max_principal', 'min_principal', 'abs_max_principal', 'signed_mises_trace', 'signed_tresca_trace', 'signed_mises_abs_max_principal', 'signed_tresca_abs_max_principal')
+    for name in names:
+        getattr(eq, name)()
+    eq.principals()
+    for step, change in (('scaled in place', lambda: dfk.__imul__(3.0)), ('one component overwritten', lambda: dfk.__setitem__('S33', dfk['S33'] + 250.0))):
+        change()
+        ctx.case(True, key=('held-accessor', step))
+        for name in names:
+            got = np.asarray(getattr(eq, name)(), dtype=float)
+            want = np.array([float(getattr(eqs, name)(*[dfk[c].iloc[i] for c in ('S11', 'S22', 'S33', 'S12', 'S13', 'S23')])) for i in range(len(dfk))])
+            if not np.allclose(got, want, rtol=1e-9, atol=1e-7):
+                ctx.fail(f'C17:held-accessor:{name}', f'{name}() of an accessor kept while the frame was {step}: {got.tolist()}, the plain function on the current tensors gives {want.tolist()}', {'step': step})
+        gp = eq.principals()[['min_principal', 'med_principal', 'max_principal']].to_numpy(dtype=float)
+        wp = np.array([np.asarray(eqs.principals(*[dfk[c].iloc[i] for c in ('S11', 'S22', 'S33', 'S12', 'S13', 'S23')]), dtype=float).ravel() for i in range(len(dfk))])
+        if not np.allclose(gp, wp, rtol=1e-9, atol=1e-7):
+            ctx.fail('C17:held-accessor:principals', f'principals() of an accessor kept while the frame was {step}: {gp.tolist()}, the plain function on the current tensors gives {wp.tolist()}', {'step': step})
     ctx.sample({'frame_rows': 7, 'index_kinds': ['str', 'int', 'multi']})
 
 
